@@ -1,5 +1,6 @@
 """Engine M entry point: runs the MIR->SMT obligations registered for a property and converts them to Outcomes."""
 import json
+import re
 import os
 import subprocess
 import sys
@@ -67,7 +68,7 @@ def confirm_violation(prop, o, r):
     case = r.get('case')
     d = os.path.join(REPLAYS, prop)
     os.makedirs(d, exist_ok=True)
-    path = os.path.join(d, o.name.replace('[', '_').replace(']', '').replace(',', '_').replace('=', '') + '.json')
+    path = os.path.join(d, re.sub(r'[^A-Za-z0-9_.-]', '-', o.name.replace('[', '_').replace(']', '').replace(',', '_').replace('=', '')) + '.json')
     if not case:
         o.status = 'inconclusive'
         o.detail = 'solver counter-model without a replayable case (not reported): ' + o.detail
